@@ -17,8 +17,9 @@ from holopy.propagation import propagate
 from holopy.propagation.convolution_propagation import trans_func
 
 ID = "C17"
-LEAN_MODULES = ["HoloProps.C17"]
-MODEL_MODULES = ["HoloModel.Fourier"]
+LEAN_MODULES = ["HoloProps.C17", "HoloProps.C17Gen"]
+MODEL_MODULES = ["HoloModel.Fourier", "HoloGen.PyPropagate", "HoloGen.PyFourier"]
+GEN_DEPS = ["PyPropagate", "PyFourier"]
 NOT_PROVED = [
     "np.fft.fft2/ifft2 are an inverse pair satisfying Parseval and linearity (structure FFTPair / hypotheses of C17_energy); sampled by the correspondence",
     "energy bound with gradient_filter on (|G| can reach 2 by construction: difference of two propagations) - not claimed",
